@@ -49,9 +49,46 @@ theorem sem_block (θ z : Θ) (c0 t : Nat) (h : c0 ≠ t) (ψ : State R) :
       = applyFam (fun _ => (matU θ z z : Mat2 R)) t
           (applyFam (fun b => condX (b c0)) t (applyFam (fun _ => (matU θ z z : Mat2 R)) t ψ)) := by
     simp only [sem, List.foldl, denote, applyMcu_nil', applyMcu_one', condX]
-  rw [e, applyFam_comp' t _ _ (fun _ _ => rfl), applyFam_comp' t]
-  intro b v
-  simp only [setBit_other b v h]
+  have hfree : TFree t (fun b : Bits => (condX (b c0) : Mat2 R)) := by
+    intro b v
+    simp only [setBit_other b v h]
+  rw [e, applyFam_comp' t _ _ hfree, applyFam_comp' t _ _ (fun _ _ => rfl)]
+  exact applyFam_congr t (fun b => Mat2.mul_assoc' _ _ _) ψ
+
+theorem toffoli_none (o : McxAngles Θ) (c0 c1 t : Nat) :
+    toffoli o .none c0 c1 t
+      = [G.u o.nq o.z o.z t, G.cx c0 t, G.u o.nq o.z o.z t] ++ [G.cx c1 t]
+          ++ [G.u o.q o.z o.z t, G.cx c0 t, G.u o.q o.z o.z t] := rfl
+
+theorem toffoli_right (o : McxAngles Θ) (c0 c1 t : Nat) :
+    toffoli o .right c0 c1 t
+      = [G.u o.nq o.z o.z t, G.cx c0 t, G.u o.nq o.z o.z t] ++ [G.cx c1 t] := rfl
+
+theorem toffoli_left (o : McxAngles Θ) (c0 c1 t : Nat) :
+    toffoli o .left c0 c1 t
+      = [G.cx c1 t] ++ [G.u o.q o.z o.z t, G.cx c0 t, G.u o.q o.z o.z t] := rfl
+
+theorem denote_cx_fam (c t : Nat) (ψ : State R) :
+    denote (G.cx c t : G Θ) ψ = applyFam (fun b => (condX (b c) : Mat2 R)) t ψ := by
+  simp only [denote, applyMcu_one', condX]
+
+/-- sign of `P ? (c0 ? X : -Z) : I` on `t` -/
+def relSgn (P : Bits → Bool) (c0 t : Nat) (b : Bits) : R :=
+  if P b && !(b c0) && !(b t) then -1 else 1
+
+/-- relabelling of `P ? (c0 ? X : -Z) : I` on `t` -/
+def relPerm (P : Bits → Bool) (c0 t : Nat) (b : Bits) : Bits :=
+  if P b && b c0 then flipBit b t else b
+
+omit [RotSem Θ R] in
+/-- The relative-phase Toffoli family as a signed relabelling. -/
+theorem relTof_sp (c0 t : Nat) (P : Bits → Bool) (ψ : State R) :
+    applyFam (fun b => (relTofMat (P b) (b c0) : Mat2 R)) t ψ
+      = sp (relSgn P c0 t) (relPerm P c0 t) ψ := by
+  funext b
+  simp only [applyFam, sp, relTofMat, negZ, Mat2.X, relSgn, relPerm, ← setBit_not]
+  cases hP : P b <;> cases hc : b c0 <;> cases ht : b t <;>
+    simp [setBit_self' b t _ ht]
 
 variable (o : McxAngles Θ) (hp : Pi8 R o)
 include hp
@@ -67,6 +104,54 @@ theorem block_conj (p c : Bool) :
     ext <;>
     simp [relTofMat, condX, negZ, matU, Mat2.X, hp.ex_z, hp.cs_nq, hp.sn_nq] <;>
     grind
+
+/-- `P⁻¹ ; X_t^P ; P` (time order) is the relative-phase Toffoli matrix family. -/
+theorem conj_core (c0 t : Nat) (hct : c0 ≠ t) (P : Bits → Bool)
+    (hPt : ∀ b v, P (setBit b t v) = P b) (ψ : State R) :
+    sem [G.u o.q o.z o.z t, G.cx c0 t, G.u o.q o.z o.z t]
+        (applyFam (fun b => (condX (P b) : Mat2 R)) t
+          (sem [G.u o.nq o.z o.z t, G.cx c0 t, G.u o.nq o.z o.z t] ψ))
+      = applyFam (fun b => (relTofMat (P b) (b c0) : Mat2 R)) t ψ := by
+  have f1 : TFree t (fun b : Bits =>
+      (matU o.nq o.z o.z : Mat2 R) * (condX (b c0) * matU o.nq o.z o.z)) := by
+    intro b v
+    simp only [setBit_other b v hct]
+  have f2 : TFree t (fun b : Bits => (condX (P b) : Mat2 R)
+      * ((matU o.nq o.z o.z : Mat2 R) * (condX (b c0) * matU o.nq o.z o.z))) := by
+    intro b v
+    simp only [setBit_other b v hct, hPt]
+  rw [sem_block _ _ _ _ hct, sem_block _ _ _ _ hct, applyFam_comp' t _ _ f1,
+    applyFam_comp' t _ _ f2]
+  exact applyFam_congr t (fun b => block_conj o hp (P b) (b c0)) ψ
+
+/-- The full relative-phase Toffoli `Toffoli()` on wires `[c0, c1, t]` is the matrix family
+`c1 ? (c0 ? X : -Z) : I` on `t`. -/
+theorem toffoli_relphase (c0 c1 t : Nat) (h0 : c0 ≠ t) (h1 : c1 ≠ t) (ψ : State R) :
+    sem (toffoli o .none c0 c1 t) ψ
+      = applyFam (fun b => (relTofMat (b c1) (b c0) : Mat2 R)) t ψ := by
+  rw [toffoli_none, sem_append, sem_append, sem_single, denote_cx_fam]
+  exact conj_core o hp c0 t h0 (fun b => b c1) (fun b v => by simp only [setBit_other b v h1]) ψ
+
+/-- The conjugation step: a right-cancelled and a left-cancelled Toffoli around a signed
+relabelling `W = sp σ π` that does not see `t`, keeps `c0` and flips `a` exactly under `P`,
+equal `W` after the relative-phase Toffoli family `P ? (c0 ? X : -Z) : I` on `t`. -/
+theorem halves (c0 a t : Nat) (σ : Bits → R) (π : Bits → Bits) (P : Bits → Bool)
+    (body : Circ Θ) (hbody : ∀ ψ : State R, sem body ψ = sp σ π ψ)
+    (hct : c0 ≠ t) (hat : a ≠ t) (hf : FreeAt t σ π)
+    (hc0 : ∀ b, (π b) c0 = b c0)
+    (ha : ∀ b, (π b) a = xor (b a) (P b)) (hP : ∀ b, P (π b) = P b)
+    (hPt : ∀ b v, P (setBit b t v) = P b) (ψ : State R) :
+    sem (toffoli o .right c0 a t ++ body ++ toffoli o .left c0 a t) ψ
+      = sp σ π (applyFam (fun b => (relTofMat (P b) (b c0) : Mat2 R)) t ψ) := by
+  rw [toffoli_right, toffoli_left]
+  simp only [sem_append, sem_single, hbody]
+  rw [cx_sp_cx σ π a t P hf ha hP hat, ← applyFam_condX, sem_block _ _ _ _ hct,
+    applyFam_sp σ π t hf, ← sem_block _ _ _ _ hct]
+  · have e : (fun b => if P b = true then (Mat2.X : Mat2 R) else 1)
+        = fun b => (condX (P b) : Mat2 R) := rfl
+    rw [e, conj_core o hp c0 t hct P hPt]
+  · intro b
+    simp only [hc0]
 
 end
 end Qclib
